@@ -67,7 +67,15 @@ type c11Op struct {
 	Method  string     `json:"method"`
 	Params  []c11Param `json:"params,omitempty"` // query and header
 	BodyRef string     `json:"body_ref,omitempty"`
+	Media   []string   `json:"media,omitempty"` // media types the body is offered in ("" = application/json only)
 	Resps   []c11Resp  `json:"resps"`
+}
+
+func (op c11Op) media() []string {
+	if len(op.Media) == 0 {
+		return []string{"application/json"}
+	}
+	return op.Media
 }
 
 type c11PathItem struct {
@@ -313,6 +321,10 @@ func c11GenDoc(t *rapid.T, v int) c11Doc {
 			}
 			if m != "get" && m != "delete" && rapid.Bool().Draw(t, "body") {
 				op.BodyRef = pick(t, objects, "bodyref")
+				if rapid.Bool().Draw(t, "bodymedia") {
+					nm := rapid.IntRange(2, 5).Draw(t, "nmedia")
+					op.Media = c12Distinct(t, []string{"application/json", "application/xml", "text/plain", "application/yaml", "text/csv"}, nm, "media")
+				}
 			}
 			nr := rapid.IntRange(1, 3).Draw(t, "nresps")
 			for _, code := range c12Distinct(t, []string{"200", "201", "204", "400", "404", "500"}, nr, "codes") {
@@ -460,9 +472,17 @@ func (d c11Doc) tree(v int) c12Obj {
 			if op.BodyRef != "" {
 				if v == 2 {
 					ps = append(ps, c12Obj{"name": "body", "in": "body", "required": true, "schema": d.refTo(v, op.BodyRef)})
-					o["consumes"] = []interface{}{"application/json"}
+					cons := []interface{}{}
+					for _, m := range op.media() {
+						cons = append(cons, m)
+					}
+					o["consumes"] = cons
 				} else {
-					o["requestBody"] = c12Obj{"required": true, "content": c12Obj{"application/json": c12Obj{"schema": d.refTo(v, op.BodyRef)}}}
+					content := c12Obj{}
+					for _, m := range op.media() {
+						content[m] = c12Obj{"schema": d.refTo(v, op.BodyRef)}
+					}
+					o["requestBody"] = c12Obj{"required": true, "content": content}
 				}
 			}
 			if len(ps) > 0 {
@@ -572,6 +592,7 @@ type c11WEp struct {
 	Query   []c11WParam `json:"query,omitempty"`
 	Headers []c11WParam `json:"headers,omitempty"`
 	BodyRef string      `json:"body_ref,omitempty"`
+	Media   []string    `json:"media,omitempty"`
 	Rets    []c11WRet   `json:"rets"`
 }
 
@@ -651,6 +672,9 @@ func (d c11Doc) Want() c11Want {
 	for _, pi := range d.Paths {
 		for _, op := range pi.Ops {
 			e := c11WEp{Method: strings.ToUpper(op.Method), Path: pi.Path, BodyRef: op.BodyRef}
+			if op.BodyRef != "" {
+				e.Media = op.media()
+			}
 			for _, pv := range pi.Vars {
 				cl, bits := c11OASClass(pv.Type, pv.Format)
 				e.Vars = append(e.Vars, c11WParam{Name: pv.Name, Class: cl, Bits: bits})
@@ -789,6 +813,9 @@ func c11DocClasses(d c11Doc) (classes []string, nonTrivial bool) {
 			nops++
 			if op.BodyRef != "" {
 				cl["body_param"] = true
+				if len(op.Media) >= 3 {
+					cl["body_offered_in>=3_media_types"] = true
+				}
 			}
 			for _, p := range op.Params {
 				cl[p.In+"_param"] = true
